@@ -1,12 +1,13 @@
 (* Correspondence and monitor for C12, evaluated on cases written by harness/props/c12.py. *)
 From Coq Require Import ZArith NArith List Bool Arith.
 Import ListNotations.
-From HV Require Export lib.Harness model.Export spec.ExportS.
+From HV Require Export lib.Harness model.Export model.ExportNum spec.ExportS.
 Open Scope Z_scope.
 
 (* a case: the HUGR as read through the public API, what Hugr.to_model() returned (None = raised),
-   whether the generator claims the HUGR is a valid module *)
-Inductive case := CExport (h : hugr) (obs : option (eregion N N)) (expect_valid : bool).
+   whether the generator claims the HUGR is a valid module, and (for the numbering diagnostic only) the
+   number each interned link name spells *)
+Inductive case := CExport (h : hugr) (obs : option (eregion N N)) (expect_valid : bool) (nm : list (N * N)).
 
 (* ---- comparison up to renaming: every link name / symbol is replaced by the position of its first
    occurrence in a fixed traversal *)
@@ -87,7 +88,7 @@ Definition valid_all (h : hugr) : bool :=
    together); a HUGR the generator built as a valid module meets the guard of the theorems *)
 Definition corr (c : case) : bool :=
   match c with
-  | CExport h obs ev =>
+  | CExport h obs ev _ =>
       implb ev (valid_all h) &&
       match to_model h, obs with
       | None, None => true
@@ -104,7 +105,7 @@ Definition corr (c : case) : bool :=
 (* monitor: the specification evaluated on what the implementation returned *)
 Definition mon (c : case) : bool :=
   match c with
-  | CExport h obs ev =>
+  | CExport h obs ev _ =>
       if valid_all h
       then match obs with Some o => spec_b N.eqb N.eqb h o | None => false end
       else true
@@ -113,7 +114,7 @@ Definition mon (c : case) : bool :=
 (* diagnostic: which clause fails (1..7), 0 = none, 8 = export raised *)
 Definition clause (c : case) : nat :=
   match c with
-  | CExport h obs ev =>
+  | CExport h obs ev _ =>
       if negb (valid_all h) then 9%nat else
       match obs with
       | None => 8%nat
@@ -132,7 +133,7 @@ Definition clause (c : case) : nat :=
 (* per-clause monitors, used by the harness to classify a failure *)
 Definition on_obs (f : hugr -> eregion N N -> bool) (c : case) : bool :=
   match c with
-  | CExport h (Some o) _ => if valid_all h then f h o else true
+  | CExport h (Some o) _ _ => if valid_all h then f h o else true
   | _ => true
   end.
 Definition k1 := on_obs (fun h o => regions_mirror_hierarchy h o).
@@ -145,7 +146,7 @@ Definition k7 := on_obs (fun h o => metadata_carried h o).
 
 (* which part of the guard a case meets (reported per run by the harness: how many generated modules
    satisfy the guard of which theorem) *)
-Definition on_h (f : hugr -> bool) (c : case) : bool := match c with CExport h _ _ => f h end.
+Definition on_h (f : hugr -> bool) (c : case) : bool := match c with CExport h _ _ _ => f h end.
 Definition g_valid := on_h valid_b.
 Definition g_order := on_h valid_order_b.
 Definition g_ports := on_h order_ports_b.
@@ -155,3 +156,18 @@ Definition g_hints := on_h valid_hints_b.
 Definition g_total := on_h valid_total_b.
 Definition g_all := on_h valid_all.
 Definition g_noerr := on_h (fun h => negb (export_err h)).
+
+(* diagnostic, never an alarm: does the implementation spell exactly the first-use numbers of
+   model/ExportNum.v (same tree traversal, names compared as numbers)?  corr compares up to renaming, so
+   a harmless change of the numbering scheme only changes this count. *)
+Definition region_names {L Sy} (m : eregion L Sy) : list L :=
+  match m with ERegion _ s t ch _ => s ++ t ++ flat_map names_node ch end.
+Definition lookupN (nm : list (N * N)) (x : N) : N :=
+  match find (fun p => N.eqb (fst p) x) nm with Some p => snd p | None => 4294967295%N end.
+Definition g_numexact (c : case) : bool :=
+  match c with
+  | CExport h (Some o) _ nm =>
+      valid_all h &&
+      list_eqb N.eqb (map (lookupN nm) (region_names o)) (map N.of_nat (region_names (export_numbered h)))
+  | _ => false
+  end.
